@@ -97,8 +97,8 @@ func snapFailScenario(s *sc) {
 	s.must(err, "GET silences after restart")
 	if len(before) != 1 || len(after) != 1 || silKey(before[0]) != silKey(after[0]) || after[0].ID != sid {
 		s.violate("silence-lost-at-restart", "one periodic snapshot had failed (data dir missing at that moment), later ones and the shutdown snapshot could succeed: %d silences before the clean shutdown, %d after the restart on the same data dir", len(before), len(after))
-		return
 	}
+	silencesOK := !s.violated()
 	tPost := time.Now()
 	_, err = in.PostAlerts([]AlertIn{al("a1", "1"), al("a2", "2"), al("a6", "6")})
 	s.must(err, "post alerts after restart")
@@ -116,7 +116,7 @@ func snapFailScenario(s *sc) {
 	if listed(reqs, "a2") > 0 {
 		s.violate("notification-repeated-after-restart", "one periodic snapshot had failed (data dir missing at that moment), later ones and the shutdown snapshot could succeed; the unchanged firing alert a2, notified before, was notified again after the clean restart (repeat_interval 1h)")
 	}
-	if listed(reqs, "a1") > 0 {
+	if silencesOK && listed(reqs, "a1") > 0 {
 		s.violate("active-silence-does-not-mute-after-restart", "alert a1 matches silence %s, active before and after the restart, and was notified after the restart", sid)
 	}
 	if !s.violated() {
